@@ -12,6 +12,14 @@ Ops (one per line, `k=v` arguments; lists `A|B`, `-` empty; coins `5stake,3xcoin
   send from= to= amt=       msend from= to=A|B amt=     delegate who= amt=    tomod who= amt=
   xsend via= from= to= amt= (the same MsgSend executed on the account's behalf by `via` through authz)
   msg m=s:A|B               fund who= amt=
+  grant from= to= lim=      (authz MsgGrant of a MarkerTransferAuthorization by `from` to `to`)
+  mxfer admin= from= to= amt=<one coin>   (marker MsgTransferRequest signed by `admin`)
+  mwd admin= to= denom= amt=              (marker MsgWithdrawRequest: out of the marker's account)
+  mktwd admin= to= amt=                   (exchange MsgMarketWithdrawRequest signed by `admin`)
+  pay src= tgt= samt= tamt=               (exchange MsgCreatePaymentRequest + MsgAcceptPaymentRequest)
+  settle seller= buyer= assets= price=    (exchange ask + bid + MsgMarketSettleRequest)
+  cfg also takes markers=<denom>/<account>/<0|1 forced transfers>/<transfer>/<force>/<withdraw>/<deposit>;…
+      (access lists `A+B`), blocked=…, noforce=…, market=…, mktadm=… (who may withdraw from the market)
   q                         -> canonical dump (see `dump`)
   tkey addr=<hex> id=       ikey addr=<hex> id=      skey addr=<hex>     -> key bytes (hex)
   tcmp addr=<hex> a= b=     -> bytes.Compare of two temporary keys of one address (-1|0|1)
@@ -70,6 +78,17 @@ def parseOp (ws : List String) : Option Op :=
   | "tomod" :: r => do pure (.tomod (parseAddr (kvD r "who")) (← kvCoins r "amt"))
   | "msg" :: r => do pure (.msg (← parseMsg (kvD r "m")))
   | "fund" :: r => do pure (.fund (parseAddr (kvD r "who")) (← kvCoins r "amt"))
+  | "grant" :: r => do pure (.grant (parseAddr (kvD r "from")) (parseAddr (kvD r "to")) (← kvCoins r "lim"))
+  | "mxfer" :: r => do
+    let c ← parseCoin? (kvD r "amt")
+    pure (.mxfer (parseAddr (kvD r "admin")) (parseAddr (kvD r "from")) (parseAddr (kvD r "to")) c.1 c.2)
+  | "mwd" :: r => do
+    pure (.mwd (parseAddr (kvD r "admin")) (parseAddr (kvD r "to")) (kvD r "denom") (← kvCoins r "amt"))
+  | "mktwd" :: r => do pure (.mktwd (parseAddr (kvD r "admin")) (parseAddr (kvD r "to")) (← kvCoins r "amt"))
+  | "pay" :: r => do
+    pure (.pay (parseAddr (kvD r "src")) (parseAddr (kvD r "tgt")) (← kvCoins r "samt") (← kvCoins r "tamt"))
+  | "settle" :: r => do
+    pure (.settle (parseAddr (kvD r "seller")) (parseAddr (kvD r "buyer")) (← kvCoins r "assets") (← kvCoins r "price"))
   | _ => none
 
 def parseRatio (s : String) : Option (Nat × Nat) :=
@@ -89,6 +108,13 @@ def kvDep (r : List String) (bond : Denom) (k : String) : Option Coins :=
   | some n => some [(bond, n)]
   | none => kvCoins r k
 
+def parseMarker (x : String) : Option Marker :=
+  match x.splitOn "/" with
+  | [d, a, f, xf, fo, wd, dp] =>
+    some { denom := d, addr := a, allowForce := f = "1", xfer := splitList xf "+", force := splitList fo "+",
+           withdraw := splitList wd "+", deposit := splitList dp "+" }
+  | _ => none
+
 def parseCfg (r : List String) : Option (Cfg × List (Addr × Coins)) := do
   let (n, d) ← parseRatio (kvD r "cancel" "1/2")
   let bond := kvD r "bond" "stake"
@@ -100,7 +126,10 @@ def parseCfg (r : List String) : Option (Cfg × List (Addr × Coins)) := do
     depMin := ← kvDep r bond "depmin", depMinExp := ← kvDep r bond "depminexp",
     depositPeriod := ← kvNat r "depp", votingPeriod := ← kvNat r "votp", expVotingPeriod := ← kvNat r "expvotp",
     cancelNum := n, cancelDen := d,
-    burnQuorum := kvD r "burnq" "0" = "1", burnVeto := kvD r "burnv" "0" = "1", burnPrevote := kvD r "burnp" "0" = "1" }
+    burnQuorum := kvD r "burnq" "0" = "1", burnVeto := kvD r "burnv" "0" = "1", burnPrevote := kvD r "burnp" "0" = "1",
+    markers := ← (splitList (kvD r "markers") ";").mapM parseMarker,
+    blocked := splitList (kvD r "blocked"), noForce := splitList (kvD r "noforce"), market := kvD r "market" "MKT",
+    marketAdmins := splitList (kvD r "mktadm") }
   let b ← parseBal0 (kvD r "bal0")
   pure (c, b)
 
@@ -111,6 +140,8 @@ def joinOr (xs : List String) (sep : String := ";") : String := if xs.isEmpty th
 def strLe (a b : String) : Bool := !(b < a)
 def tempLe (a b : TempEntry) : Bool := a.addr < b.addr || (a.addr == b.addr && a.id ≤ b.id)
 def idxLe (a b : TempEntry) : Bool := a.id < b.id || (a.id == b.id && strLe a.addr b.addr)
+
+def grantLe (a b : Grant) : Bool := a.grantee < b.grantee || (a.grantee == b.grantee && strLe a.granter b.granter)
 
 def statusLetter : PStatus → String
   | .deposit => "D" | .voting => "V" | .passed => "P" | .rejected => "R" | .failed => "F"
@@ -124,7 +155,8 @@ def dump (s : State) : String :=
   let props := (s.props.mergeSort fun a b => a.id ≤ b.id).map fun p =>
     s!"{p.id}:{statusLetter p.status}:{showCoins (Coins.canon p.total)}"
   let bal := names.map fun a => s!"{showAddr a}:{showCoins (s.ledger.balances a)}"
-  s!"san={joinOr san} perm={joinOr perm} temp={joinOr temp} idx={joinOr idx} props={joinOr props} next={s.nextId} smin={showCoins (Coins.canon s.st.sancMin)} umin={showCoins (Coins.canon s.st.unsancMin)} bal={joinOr bal}"
+  let grants := (s.grants.mergeSort grantLe).map fun g => s!"{g.grantee}<{g.granter}:{showCoins (Coins.canon g.limit)}"
+  s!"san={joinOr san} perm={joinOr perm} temp={joinOr temp} idx={joinOr idx} props={joinOr props} next={s.nextId} smin={showCoins (Coins.canon s.st.sancMin)} umin={showCoins (Coins.canon s.st.unsancMin)} bal={joinOr bal} grants={joinOr grants}"
 
 /-! ### reading the implementation's dump -/
 
@@ -259,26 +291,32 @@ def checkDump (c : Cfg) (d : DState) (o : Obs) : String × DState :=
       | some f => ("fail:temp_survives_cancel", { d' with reported := f.1 :: d'.reported })
       | none => ("ok", d')
 
-/-- the account an operation debits, if any -/
-def debited : Op → Option Addr
-  | .submit who _ _ _ => some who
-  | .deposit who _ _ => some who
-  | .send f _ _ => some f
-  | .msend f _ _ => some f
-  | .delegate who _ => some who
-  | .tomod who _ => some who
-  | _ => none
+/-- the accounts an operation debits (whoever signs it) -/
+def debited (c : Cfg) : Op → List Addr
+  | .submit who _ _ _ => [who]
+  | .deposit who _ _ => [who]
+  | .send f _ _ => [f]
+  | .msend f _ _ => [f]
+  | .delegate who _ => [who]
+  | .tomod who _ => [who]
+  | .mxfer _ frm _ _ x => if 0 < x then [frm] else []
+  | .mwd _ _ d _ => match getMarkerByDenom c d with | some m => [m.addr] | none => []
+  | .mktwd _ _ _ => [c.market]
+  | .pay src tgt sAmt tAmt => (if sAmt.isEmpty then [] else [src]) ++ (if tAmt.isEmpty then [] else [tgt])
+  | .settle seller buyer _ _ => [seller, buyer]
+  | _ => []
 
-/-- The property on the answer to one operation: a debit of an account observed as
-sanctioned must be refused; nobody else may be refused for being sanctioned. -/
+/-- The property on the answer to one operation: an operation that debits an account observed
+as sanctioned must be refused; nobody may be refused for being sanctioned when none of the
+debited accounts is. -/
 def checkOp (d : DState) (op : Op) (impl : String) : String :=
-  match (if d.since = 0 then d.obs else none), debited op with
-  | some o, some a =>
-    match o.san.lookup a with
-    | some true => if impl.startsWith "ok" then "fail:sanctioned_debit_allowed" else "ok"
-    | some false => if impl = "err:sanctioned" then "fail:unsanctioned_refused" else "ok"
-    | none => "-"
-  | _, _ => "-"
+  match (if d.since = 0 then d.obs else none) with
+  | none => "-"
+  | some o =>
+    let sts := (debited d.s.cfg op).filterMap (fun a => o.san.lookup a)
+    if sts.isEmpty then "-"
+    else if sts.any (· == true) then (if impl.startsWith "ok" then "fail:sanctioned_debit_allowed" else "ok")
+    else if impl = "err:sanctioned" then "fail:unsanctioned_refused" else "ok"
 
 def cancelId : Op → Option Nat
   | .cancel _ id => some id
